@@ -89,6 +89,33 @@ Theorem C06_single_event_one_statement : forall c o,
 Proof. exact single_event_one_stmt. Qed.
 Print Assumptions C06_single_event_one_statement.
 
+(* In terms of CALLS: the reopened tables are the tables the store model has after some
+   prefix [h1] of the calls - except when the durable prefix of statements ends inside an
+   insert_many ([cr_bulk_op]: the only calls that issue several statements with
+   conditional_commits in between, or one executemany counted afterwards); then a proper
+   part [p'] of that call's statements is applied on top. *)
+Theorem C06_reopened_is_call_prefix : forall lazy d0 t0 h tr k,
+  map fst tr = hist_script d0 h ->
+  let s := cr_run lazy (cr_init d0 t0) (firstn k tr) in
+  exists h1 rest p',
+    h = h1 ++ rest /\ reopen s = apply_stmts (hist_live d0 h1) p' /\
+    (p' = [] \/
+     exists o h2, rest = o :: h2 /\ cr_bulk_op o /\
+                  prefix p' (stmts_of (sscript (hist_live d0 h1) o)) /\
+                  (0 < length p' < length (stmts_of (sscript (hist_live d0 h1) o)))%nat).
+Proof. exact reopened_is_call_prefix. Qed.
+Print Assumptions C06_reopened_is_call_prefix.
+
+(* Without insert_many, in the vocabulary of Model/SqliteStore.v: after a crash at any
+   point the reopened tables are [sq_run d0] of a prefix of the history - a state the
+   store model passes through, so every invariant proved of [sq_run] in C02/C04/C05
+   (no orphan rows, unique ids, ...) holds of the reopened database. *)
+Theorem C06_reopened_is_store_state : forall lazy d0 t0 hs tr k,
+  map fst tr = hist_script d0 (map Std hs) -> Forall not_insert_many hs ->
+  exists n, reopen (cr_run lazy (cr_init d0 t0) (firstn k tr)) = sq_run d0 (firstn n hs).
+Proof. exact reopened_is_store_state. Qed.
+Print Assumptions C06_reopened_is_store_state.
+
 (* create_bucket / update_bucket / delete_bucket, from ANY state: when the call has issued
    its statement(s) (i.e. it is not a create_bucket of an existing id or an update_bucket
    without fields, which raise before writing), at its return a reopen finds exactly what
